@@ -115,7 +115,10 @@ def run_case(case: dict) -> str | None:
     entry = next(e for e in corpus.base_streams(case["corpus"]) if e["name"] == case["stream"])
     k = case["cut"]
     data = entry["data"][:k]
-    src = io.BytesIO(data) if case["source"] == "bytesio" else faultio.ScheduleRaw(data)
+    src = {"bytesio": lambda: io.BytesIO(data), "raw": lambda: faultio.ScheduleRaw(data),
+           # the connection drops: the transport raises instead of reporting end-of-file
+           "raw-reset": lambda: faultio.ResetRaw(data),
+           "raw-reset-7": lambda: faultio.ResetRaw(data, 7)}[case["source"]]()
     if case["mode"] == "graph_parse":
         got, exc = consume_to_graph(case["api"], src, entry["cls"] != "triple")
     else:
@@ -138,7 +141,7 @@ def shard(job) -> dict:
     else:
         cuts = range(n + 1)
     for k in cuts:
-        for source in ("bytesio", "raw"):
+        for source in ("bytesio", "raw", "raw-reset", "raw-reset-7"):
             for api in ("generic", "rdflib"):
                 if api == "rdflib" and not entry["rdf11"]:
                     continue
@@ -176,7 +179,8 @@ def run(ctx) -> None:
         samples=merged["samples"],
         rule=(
             "every byte offset 0..len of every base stream (6 scopes x 3 physical types x frame "
-            "sizes, namespace and empty-frame streams) x {BytesIO, non-seekable raw} x {flat, "
+            "sizes, namespace and empty-frame streams) x {BytesIO, non-seekable raw ending in EOF, "
+            "non-seekable raw ending in ConnectionResetError (whole / 7-byte segments)} x {flat, "
             "grouped, and what a Graph holds after Graph.parse (rdflib)} x {generic, rdflib (RDF 1.1 "
             "streams)}; non-trivial = cut strictly inside a "
             "frame; expected content per frame comes from the reference decoder"
